@@ -303,7 +303,9 @@ func checkC10(c *Case) (*Violation, caseInfo) {
 		var out callOutcome
 		switch s.Op {
 		case "reader":
-			out = guarded(0, func() (*distiller.Result, error) { return distiller.ApplyForReader(strings.NewReader(ex.Docs[s.Doc].HTML), o) })
+			out = guarded(0, func() (*distiller.Result, error) {
+				return distiller.ApplyForReader(strings.NewReader(ex.Docs[s.Doc].HTML), o)
+			})
 		case "file":
 			dir := os.Getenv("VERIF_SCRATCH")
 			if dir == "" {
